@@ -90,6 +90,7 @@ type SimConn struct {
 	// EOFWithData: the Read that takes the last bytes before the peer's FIN returns them together with io.EOF
 	EOFWithData bool
 	rd          readDeadline
+	wd          readDeadline // the write deadline (same mechanics)
 }
 
 // NewStream creates a connected pair of simulated stream ends.
@@ -177,9 +178,15 @@ func (c *SimConn) Write(b []byte) (int, error) {
 		}
 		if h.limit > 0 && len(h.queued)+len(h.ready) >= h.limit {
 			h.mu.Unlock()
+			expired, changed, timer := c.wd.state()
+			if expired {
+				return 0, os.ErrDeadlineExceeded
+			}
 			select {
 			case <-h.wwake:
 			case <-c.closed:
+			case <-changed:
+			case <-timer:
 			}
 			continue
 		}
@@ -211,11 +218,11 @@ func (c *SimConn) Close() error {
 // ClosedCh is closed when this end has been closed locally.
 func (c *SimConn) ClosedCh() <-chan struct{} { return c.closed }
 
-func (c *SimConn) LocalAddr() net.Addr               { return c.laddr }
-func (c *SimConn) RemoteAddr() net.Addr              { return c.raddr }
-func (c *SimConn) SetDeadline(t time.Time) error     { c.rd.set(t); return nil }
-func (c *SimConn) SetReadDeadline(t time.Time) error { c.rd.set(t); return nil }
-func (c *SimConn) SetWriteDeadline(time.Time) error  { return nil }
+func (c *SimConn) LocalAddr() net.Addr                { return c.laddr }
+func (c *SimConn) RemoteAddr() net.Addr               { return c.raddr }
+func (c *SimConn) SetDeadline(t time.Time) error      { c.rd.set(t); c.wd.set(t); return nil }
+func (c *SimConn) SetReadDeadline(t time.Time) error  { c.rd.set(t); return nil }
+func (c *SimConn) SetWriteDeadline(t time.Time) error { c.wd.set(t); return nil }
 
 // --- simulator-side controls (simulator goroutine only)
 
